@@ -1,4 +1,5 @@
 import FalconModel.Wire
+import FalconModel.WirePath
 open Wr
 
 /-! Line-protocol driver for the wire-level header model (C06, request side).
@@ -16,7 +17,16 @@ open Wr
             HA=D  ASGI req.headers
             CT=<w>/<a>   req.content_type (`~` or S)
             CL=<w>/<a>   req.content_length (`~`, the number, or `bad` = HTTPInvalidHeader)
-      u S     reply: S.upper()/S.lower()   (code points < 256) -/
+      u S     reply: S.upper()/S.lower()   (code points < 256)
+      t m=S tg=S sc=S sn=S sp=N cl=-|S:N rp=S fw=0|1 hs=-|S:S;…  lib=<6 chars> o=<3 chars>
+          the request TARGET and the connection attributes (model `Wq`, FalconModel/WirePath.lean): method, raw request-target
+          (bytes as code points < 256), scheme, server name / port, client address:port or `-`, mount point, field lines;
+          lib = omitScriptName omitQueryString omitRootPath omitScheme clientNull (0|1 each) + server key g|m|n (given / missing /
+          None); o = strip_url_path_trailing_slash keep_blank_qs_values auto_parse_qs_csv (0|1 each).  Reply:
+            W <method> <path> <query_string> <params> <root_path> <scheme> <host> <port> <netloc> <remote_addr> <access_route>
+            A … the same eleven for falcon.asgi.Request, or `A CTOR` when its constructor raises (query_string not UTF-8)
+          values: S, `EXC` (a non-HTTP exception), `400` (HTTPInvalidHeader); params `-` or key:oS (scalar) / key:mS,S (list)
+          joined by `;`; port a number or `~`; access_route `-` or S,S,… -/
 
 def decS (s : String) : Str :=
   ((s.splitOn ".").drop 1).filterMap fun t => if t.isEmpty then none else t.toNat?
@@ -69,11 +79,65 @@ def runCase (ws : List String) : String :=
     ++ " CT=" ++ encOpt (wsgiContentType env) ++ "/" ++ encOpt (asgiContentType r.method store)
     ++ " CL=" ++ encCL (wsgiContentLength env) ++ "/" ++ encCL (asgiContentLength store)
 
+/-! ### request target / connection attributes (Wq) -/
+def encOut {α : Type} (f : α → String) : Wq.Out α → String
+  | .ok v => f v
+  | .bad400 => "400"
+  | .exc => "EXC"
+def encH (s : Hp.Str) : String := encS (s.map Char.toNat)
+def encParams (p : Qs.Params) : String :=
+  if p.isEmpty then "-" else ";".intercalate (p.map fun kv =>
+    encS kv.1 ++ ":" ++ (match kv.2 with
+      | .one v => "o" ++ encS v
+      | .many vs => "m" ++ ",".intercalate (vs.map encS)))
+def encPort : Option Int → String
+  | some n => toString n
+  | none => "~"
+def encRoute (r : List Hp.Str) : String := if r.isEmpty then "-" else ",".intercalate (r.map encH)
+def flag (s : String) (i : Nat) : Bool := s.toList.getD i '0' == '1'
+
+def runTarget (ws : List String) : String :=
+  let cl := kv ws "cl"
+  let c : Wq.Conn :=
+    { method := decS (kv ws "m"), target := (decS (kv ws "tg")).map Nat.toUInt8, scheme := decS (kv ws "sc"),
+      server := (decS (kv ws "sn"), (kv ws "sp").toNat!),
+      client := if cl == "-" || cl == "" then none else
+        match cl.splitOn ":" with
+        | [a, p] => some (decS a, p.toNat!)
+        | _ => none,
+      rootPath := decS (kv ws "rp"), headers := decHdrs (kv ws "hs"), fileWrapper := kv ws "fw" == "1" }
+  let lb := kv ws "lib"
+  let l : Wq.Lib :=
+    { omitScriptName := flag lb 0, omitQueryString := flag lb 1, omitRootPath := flag lb 2, omitScheme := flag lb 3,
+      clientNull := flag lb 4,
+      server := match lb.toList.getD 5 'g' with
+        | 'm' => .missing
+        | 'n' => .null
+        | _ => .given }
+  let o := kv ws "o"
+  let (strip, kb, csv) := (flag o 0, flag o 1, flag o 2)
+  let env := Wq.toEnviron c l
+  let sc := Wq.toScope c l
+  let store := asgiStore sc.headers
+  let w := " ".intercalate
+    [encOut encS (Wq.wsgiMethod env), encOut encS (Wq.wsgiPath env strip), encS (Wq.wsgiQueryString env),
+     encParams (Wq.wsgiParams env kb csv), encS (Wq.wsgiRootPath env), encOut encS (Wq.wsgiScheme env),
+     encOut encH (Wq.wsgiHost env), encOut encPort (Wq.wsgiPort env), encOut encS (Wq.wsgiNetloc env),
+     encH (Wq.wsgiRemoteAddr env), encRoute (Wq.wsgiAccessRoute env)]
+  let a := match Wq.asgiQueryString sc, Wq.asgiParams sc kb csv with
+    | some q, some ps => " ".intercalate
+      [encS (Wq.asgiMethod sc), encS (Wq.asgiPath sc strip), encS q, encParams ps, encS (Wq.asgiRootPath sc),
+       encS (Wq.asgiScheme sc), encOut encH (Wq.asgiHost sc store), encOut encPort (Wq.asgiPort sc store),
+       encS (Wq.asgiNetloc sc store), encOut encH (Wq.asgiRemoteAddr sc store), encOut encRoute (Wq.asgiAccessRoute sc store)]
+    | _, _ => "CTOR"
+  "W " ++ w ++ " A " ++ a
+
 partial def loop (h : IO.FS.Stream) : IO Unit := do
   let line ← h.getLine
   if line.isEmpty then return ()
   match line.trimAscii.toString.splitOn " " with
   | "h" :: ws => IO.println (runCase ws)
+  | "t" :: ws => IO.println (runTarget ws)
   | ["u", s] => IO.println (encS (pyUpper (decS s)) ++ "/" ++ encS (pyLower (decS s)))
   | _ => IO.println "bad-line"
   loop h
